@@ -140,7 +140,8 @@ def record_fit(params, X, Kmat=None, variant="compiled", queries=None, scale=1.0
             events.append(dict(e="step", expl=[int(v) for v in leaves], fsub=sorted(int(f) + 1 for f in feats),
                                nC=int(n_clusters), nL=int(n_leaves), kmax=int(K_max), minleaf=int(min_leaf),
                                leaf=int(s.leaf), f=int(s.feature) + 1, th=int(round(th)), thint=bool(th == round(th)),
-                               lt=int(s.left_target), rt=int(s.right_target), gain=g, gainok=ok))
+                               lt=int(s.left_target), rt=int(s.right_target), gain=g, gainok=ok,
+                               pos=bool(float(s.gain) > 0)))            # what the fit loop tests
             return s
         kk.find_best_split = spy
         try:
